@@ -581,6 +581,9 @@ func listenerE2E(c *lib.Ctx, cases []*lcase) {
 			break
 		}
 		lc := cases[i]
+		if lc.TLS {
+			continue // the socket cross-check speaks plain HTTP
+		}
 		var group []lsite
 		for _, s := range lc.Sites {
 			if s.Port == portMain {
